@@ -223,6 +223,10 @@ func newRRWorld(r *simkit.Run, viaRB, sticky, fine bool) *rrWorld {
 		rw.WriteHeader(http.StatusOK)
 	})
 	var opts []roundrobin.LBOption
+	slow := rapid.IntRange(0, 2).Draw(r.T, "slow-logger") == 0
+	if slow {
+		opts = append(opts, roundrobin.Logger(simkit.SlowLogger{}), roundrobin.Verbose(rapid.Bool().Draw(r.T, "verbose")))
+	}
 	if sticky && !viaRB {
 		opts = append(opts, roundrobin.EnableStickySession(roundrobin.NewStickySession("aff")))
 	}
@@ -241,6 +245,9 @@ func newRRWorld(r *simkit.Run, viaRB, sticky, fine bool) *rrWorld {
 		})}
 		if sticky {
 			ropts = append(ropts, roundrobin.RebalancerStickySession(roundrobin.NewStickySession("aff")))
+		}
+		if slow {
+			ropts = append(ropts, roundrobin.RebalancerLogger(simkit.SlowLogger{}), roundrobin.RebalancerDebug(rapid.Bool().Draw(r.T, "debug")))
 		}
 		rb, err := roundrobin.NewRebalancer(rr, ropts...)
 		if err != nil {
